@@ -106,10 +106,10 @@ def relCls (a b : Text) : RelCls :=
   else if (split a).authority.isNone && (split b).authority.isNone && !isAbs (split a).path && !isAbs (split b).path then
     if (nsegs (split a).path).head? == some [cDot, cDot]
         || (nsegs (Path.parent_or_empty (split b).path)).head? == some [cDot, cDot]
-        || nsegs (split a).path == [] || skipEmpty a b
-        || (nsegs (split a).path).head? == some []
-        || (nsegs (Path.parent_or_empty (split b).path)).head? == some []
-        || sdCond a b then .rootlessOther else .classRootless
+        || nsegs (split a).path == [] || skipEmpty a b then .rootlessOther
+    else if sdCond a b then .sameDocument
+    else if (nsegs (split a).path).head? == some []
+        || (nsegs (Path.parent_or_empty (split b).path)).head? == some [] then .rootlessOther else .classRootless
   else if (split a).authority.map authKey != (split b).authority.map authKey || !isAbs (split a).path
       || !(isAbs (split b).path || ((split b).path.isEmpty && (split b).authority.isSome)) then .other
   else if nsegs (split a).path == [] then
